@@ -153,6 +153,9 @@ var structGens = []structGen{
 			return ops, pool
 		},
 		extra: func(g *Gen, i int, pool [][]byte) []Tok {
+			if g.Chance(0.35) { // removals through either handle free slots the other handle may have seen full
+				return []Tok{TL(TNi(ckRemove), TNi(i), TBs(pool[g.Intn(len(pool))]))}
+			}
 			return []Tok{ckInsertOp(g, i, pool[g.Intn(len(pool))], false)}
 		},
 		queries: func(g *Gen, i int, pool [][]byte) []Tok {
@@ -453,7 +456,7 @@ func genC09(sg structGen) func(g *Gen, tier string) *Case {
 		ops = append(ops, TL(TNi(opAttach), TNi(1), TNi(0)))
 		ops = append(ops, sg.queries(subGen(qsub), 0, pool)...)
 		ops = append(ops, pairedQueries(sg, g, 0, 1, pool)...)
-		for k, n := 0, 1+g.Intn(5); k < n; k++ {
+		for k, n := 0, 2+g.Intn(8); k < n; k++ {
 			ops = append(ops, sg.extra(g, g.Intn(2), pool)...)
 			ops = append(ops, pairedQueries(sg, g, 0, 1, pool)...)
 			if g.Chance(0.2) {
